@@ -108,19 +108,23 @@ def make_cvector(pfx, T, extra=False):
     one('pop_back', r'constexpr\s+void\s+pop_back\(\)', 'void %s_pop_back(%s* self)' % (pfx, V),
         '__CPROVER_requires(%s && self->current_size >= 1)\n__CPROVER_assigns(self->current_size)\n__CPROVER_ensures(self->current_size == __CPROVER_old(self->current_size) - 1)' % wf('self'),
         between_ok=r'\s*')
-    # erase(first, last): iterators are element offsets (ptrdiff_t) from the_data (R8)
+    # erase(first, last): iterators are element offsets (ptrdiff_t) from the_data (R8); any range 0 <= first <= last <= size
+    D = '((size_t)(last - first))'
     one('erase', r'constexpr\s+iterator\s+erase\(iterator first,\s*iterator last\)', 'ptrdiff_t %s_erase(%s* self, ptrdiff_t first, ptrdiff_t last)' % (pfx, V),
-        # the header only ever calls erase(end() - n, end()); the contract covers first <= last == end(), first >= 0
-        '__CPROVER_requires(%s && first >= 0 && first <= last && last == (ptrdiff_t)self->current_size)\n__CPROVER_assigns(*self)\n'
-        '__CPROVER_ensures(self->current_size == (size_t)first && __CPROVER_return_value == first)\n'
-        '__CPROVER_ensures(%s)' % (wf('self'), frame('self', 'self->current_size')),
+        '__CPROVER_requires(%s && first >= 0 && first <= last && last <= (ptrdiff_t)self->current_size)\n__CPROVER_assigns(*self)\n'
+        '/* the elements [first, last) are gone, the ones behind them moved down, the ones before them untouched; the result is the new end() */\n'
+        '__CPROVER_ensures(self->N == __CPROVER_old(self->N) && self->current_size == __CPROVER_old(self->current_size) - %s && __CPROVER_return_value == (ptrdiff_t)self->current_size)\n'
+        '__CPROVER_ensures(__CPROVER_forall { size_t vxq; (vxq < VX_CAP) ==> ((vxq < (size_t)first ==> self->the_data[vxq] == __CPROVER_old(*self).the_data[vxq])'
+        ' && ((vxq >= (size_t)first && vxq < self->current_size && vxq + %s < VX_CAP) ==> self->the_data[vxq] == __CPROVER_old(*self).the_data[vxq + %s])) })' % (wf('self'), D, D, D),
         rules=[S(r'\bbegin\(\)', '((ptrdiff_t)0)', min=2), S(r'\bend\(\)', '((ptrdiff_t)self->current_size)', min=4),
                S(r'\bauto\s+(from|to)\b', r'ptrdiff_t \1', min=2), S(r'\biterator\s+it\b', 'ptrdiff_t it'),
                S(r'\*from\s*=\s*std::move\(\*it\)', 'the_data[from] = the_data[it]'),
                S(r'size_type diff = to - from', 'size_type diff = (size_type)(to - from)')] + R,
         loops={0: '__CPROVER_assigns(from, it, __CPROVER_object_whole(self))\n'
-                  '__CPROVER_loop_invariant(it == (ptrdiff_t)self->current_size && from == first && self->current_size == __CPROVER_loop_entry(self->current_size) && self->N == __CPROVER_loop_entry(self->N)'
-                  ' && __CPROVER_forall { size_t vxq; (vxq < VX_CAP) ==> (self->the_data[vxq] == __CPROVER_loop_entry(*self).the_data[vxq]) })'},
+                  '__CPROVER_loop_invariant(it >= last && it <= (ptrdiff_t)self->current_size && from == first + (it - last) && first < last && self->current_size == __CPROVER_loop_entry(self->current_size) && self->N == __CPROVER_loop_entry(self->N)'
+                  ' && __CPROVER_forall { size_t vxq; (vxq < VX_CAP) ==> (((vxq < (size_t)first || vxq >= (size_t)from) ==> self->the_data[vxq] == __CPROVER_loop_entry(*self).the_data[vxq])'
+                  ' && ((vxq >= (size_t)first && vxq < (size_t)from && vxq + %s < VX_CAP) ==> self->the_data[vxq] == __CPROVER_loop_entry(*self).the_data[vxq + %s])) })\n'
+                  '__CPROVER_decreases((ptrdiff_t)self->current_size - it)' % (D, D)},
         harness_args=', a, b', harness_pre='ptrdiff_t a, b;')
     return fns
 
